@@ -115,6 +115,14 @@ type onlyReader struct{ r io.Reader }
 
 func (o onlyReader) Read(p []byte) (int, error) { return o.r.Read(p) }
 
+// framedReader: a caller's reader that happens to have methods named like bytes.Reader's, with another meaning
+// (the payload length its frame header announced, not what has arrived).
+type framedReader struct{ r io.Reader }
+
+func (o framedReader) Read(p []byte) (int, error) { return o.r.Read(p) }
+func (o framedReader) Len() int                   { return 1 << 30 }
+func (o framedReader) Size() int64                { return 1 << 30 }
+
 var memA, memB runtime.MemStats
 
 func meter(on bool, f func()) uint64 {
@@ -196,6 +204,8 @@ func runBinary(c *kernel.RunCtx, ep int, data []byte, plan kernel.Plan, truncAt,
 		rd = io.LimitReader(st, 1<<31)
 	case 2:
 		rd = onlyReader{st}
+	case 3:
+		rd = framedReader{st}
 	}
 	r.alloc = meter(doMeter, func() {
 		r.pn = catch(func() {
@@ -285,7 +295,7 @@ func outcomeClass(r c09Res) string {
 
 func (w *c09World) Run(c *kernel.RunCtx) {
 	c.Begin("shape")
-	readerWrap = c.Pick(3, 2, 1)
+	readerWrap = c.Pick(3, 2, 1, 1)
 	c.Count(fmt.Sprintf("probe.reader_framing_%d", readerWrap), 1)
 	extended := c.Bool(1, 2)
 	container := c.Pick(4, 2, 2)
@@ -300,6 +310,24 @@ func (w *c09World) Run(c *kernel.RunCtx) {
 	var txs []*models.RTx
 	for i := 0; i < ntx; i++ {
 		txs = append(txs, genSmallRTx(c, extended))
+	}
+	if ntx > 1 && c.RunIdx%3 == 1 {
+		// a chain: later transactions spend outputs of earlier ones of the same stream, with the index on, at and
+		// beyond the parent's last output
+		for k := 1; k < ntx; k++ {
+			if len(txs[k].Ins) == 0 {
+				continue
+			}
+			parent := txs[(k*7+c.RunIdx)%k]
+			in := &txs[k].Ins[(k+c.RunIdx)%len(txs[k].Ins)]
+			disp := parent.TxIDDisplay()
+			for j := 0; j < 32; j++ {
+				in.TxIDWire[j] = disp[31-j]
+			}
+			no := len(parent.Outs)
+			in.Vout = []uint32{0, uint32(no) - 1, uint32(no), uint32(no) + 1, 0xffffffff}[(k+c.RunIdx/3)%5]
+		}
+		c.Count("probe.spends_earlier_tx_of_same_stream", 1)
 	}
 	big := c.RunIdx%41 == 7
 	if big {
@@ -867,6 +895,21 @@ func (w *c09World) jsonDocs(c *kernel.RunCtx, txs []*models.RTx, stream []byte, 
 				return
 			}
 		}
+		// a longer document of the same shape (every list repeated up to 8 elements) in which EVERY number is written
+		// as a dozen bytes naming a number with a million digits
+		numKeys := jsonNumberKeys(tg.doc, map[string]bool{})
+		c.Enumerate(fmt.Sprintf("json%d-bignum", ti), 3*len(numKeys), func(k int) {
+			txt := []string{"1e1000000", "1e-1000000", "0.1E+999999"}[k%3]
+			key := numKeys[k/3]
+			b, err := json.Marshal(jsonAllNumbers(tg.doc, key, "", json.RawMessage(txt)))
+			if err != nil {
+				return
+			}
+			w.runJSON(c, tg, b, fmt.Sprintf("every %q written as %s (lists repeated to 8 elements)", key, txt), "bignum:"+key)
+		})
+		if c.Failed() {
+			return
+		}
 		// the whole document replaced by a scalar / empty container ("the stored value was overwritten")
 		roots := []string{"null", " null\n", "[]", "{}", "\"\"", "\"00\"", "0", "true", "[null]", "[{}]", "[[]]", "{\"\":null}"}
 		c.Enumerate(fmt.Sprintf("json%d-root", ti), len(roots), func(k int) {
@@ -973,6 +1016,62 @@ var foreignKeys = []struct {
 	{"vin", []interface{}{}}, {"vout_list", []interface{}{}}, {"inputs", []interface{}{}}, {"outputs", []interface{}{}},
 }
 
+// jsonNumberKeys lists (sorted) the keys under which a document holds numbers.
+func jsonNumberKeys(v interface{}, seen map[string]bool) []string {
+	var walk func(v interface{}, key string)
+	walk = func(v interface{}, key string) {
+		switch t := v.(type) {
+		case map[string]interface{}:
+			for k, x := range t {
+				walk(x, k)
+			}
+		case []interface{}:
+			for _, x := range t {
+				walk(x, key)
+			}
+		case string, nil, bool:
+		default:
+			seen[key] = true
+		}
+	}
+	walk(v, "")
+	var out []string
+	for k := range seen {
+		out = append(out, k)
+	}
+	sort.Strings(out)
+	return out
+}
+
+// jsonAllNumbers copies a document, repeats the elements of every non-empty list up to 8 and replaces every number
+// held under the given key.
+func jsonAllNumbers(v interface{}, key, at string, num json.RawMessage) interface{} {
+	switch t := v.(type) {
+	case map[string]interface{}:
+		m := map[string]interface{}{}
+		for k, x := range t {
+			m[k] = jsonAllNumbers(x, key, k, num)
+		}
+		return m
+	case []interface{}:
+		var a []interface{}
+		for i := 0; len(t) > 0 && i < 8; i++ {
+			a = append(a, jsonAllNumbers(t[i%len(t)], key, at, num))
+		}
+		if a == nil {
+			a = []interface{}{}
+		}
+		return a
+	case string, nil, bool, json.RawMessage:
+		return t
+	default:
+		if at == key {
+			return num
+		}
+		return t
+	}
+}
+
 // jsonAt returns the value at a path (nil if the path does not exist).
 func jsonAt(doc interface{}, p []string) interface{} {
 	cur := doc
@@ -996,7 +1095,7 @@ func jsonAt(doc interface{}, p []string) interface{} {
 	return cur
 }
 
-var jsonMutNames = []string{"delete", "null", "wrong-type", "non-hex", "odd-hex", "array-null", "negative", "huge-number", "empty-object", "long-hex", "short-hex", "empty-string", "very-long-hex", "fraction-9", "fraction-padded", "tiny-exp", "huge-exp", "neg-fraction", "int-2^24", "int-2^31", "int-2^62", "int-maxint64", "int-minint64"}
+var jsonMutNames = []string{"delete", "null", "wrong-type", "non-hex", "odd-hex", "array-null", "negative", "huge-number", "empty-object", "long-hex", "short-hex", "empty-string", "very-long-hex", "fraction-9", "fraction-padded", "tiny-exp", "huge-exp", "neg-fraction", "int-2^24", "int-2^31", "int-2^62", "int-maxint64", "int-minint64", "exp+1e7", "exp-1e7", "frac-exp+1e7"}
 
 // jsonPaths lists every path of a document in a deterministic order.
 func jsonPaths(v interface{}, prefix []string) [][]string {
@@ -1153,6 +1252,12 @@ func jsonMutate(doc interface{}, p []string, mk int) (interface{}, bool) {
 			return nil, false
 		}
 		set(json.RawMessage([]string{"16777216", "2147483648", "4611686018427387904", "9223372036854775807", "-9223372036854775808"}[mk-18]), false)
+	case 23, 24, 25:
+		// a dozen bytes that name a number with ten million digits
+		if !isNum {
+			return nil, false
+		}
+		set(json.RawMessage([]string{"1e10000000", "1e-10000000", "0.1E+9999999"}[mk-23]), false)
 	}
 	return root, true
 }
